@@ -54,14 +54,13 @@ Proof.
   split; [apply spec_walk_pruned|]. split; [apply spec_walk_nil_balanced|apply spec_walk_no_bad].
 Qed.
 
-(* The hypothesis mandatory_okb is needed: a Field whose Type is nil (dst.go documents
-   "or nil"; go/ast 1.23 checks it) makes Walk call itself on nil. *)
-Theorem C13_nil_mandatory_refuted :
-  exists t, conformsb universe t = true /\ In EBad (walk walk_tbl (fun _ => false) t).
-Proof.
-  exists (Node 1 "Field" [] [("Names", Many []); ("Type", One None); ("Tag", One None)] [] SNone SNone).
-  vm_compute. split; [reflexivity|]. right. left. reflexivity.
-Qed.
+(* A Field whose Type is nil (dst.go documents "or nil"; go/ast checks it) used to make Walk call
+   itself on nil (fixed: acc6b40); it is now skipped like in go/ast.  The hypothesis mandatory_okb
+   only speaks of children that go/ast's Walk does not check either. *)
+Example C13_nil_field_type_is_skipped :
+  let t := Node 1 "Field" [] [("Names", Many []); ("Type", One None); ("Tag", One None)] [] SNone SNone in
+  conformsb universe t = true /\ mandatory_okb walk_tbl t = true /\ walk walk_tbl (fun _ => false) t = [EVisit 1; ENil].
+Proof. vm_compute. repeat split. Qed.
 
 (* Non-vacuity *)
 Example C13_nonvacuous :
@@ -77,4 +76,3 @@ Print Assumptions C13_matches_goast.
 Print Assumptions C13_walk_is_preorder.
 Print Assumptions C13_each_node_once.
 Print Assumptions C13_declined_subtree_skipped.
-Print Assumptions C13_nil_mandatory_refuted.
